@@ -593,6 +593,30 @@ def _gen_tc(rng):
 
     rows, cols = rng.choice([(1, 1), (1, 2), (2, 1), (2, 3), (3, 2), (1, 5)])
     big = rng.random() < 0.3
+    if rng.random() < 0.12:
+        # long blocks: a component whose code length is steered to a multiple of 255 bytes +-1 (where a slice_size_scaler must change)
+        rows, cols = rng.choice([(1, 1), (1, 2)])
+        target_bits = 8 * (255 * rng.choice([1, 1, 2, 3]) + rng.choice([-1, 0, 1, 2]))
+
+        def long_comp(heavy):
+            if not heavy:
+                return _gen_component(rng)
+            vals, bits = [], 0
+            while bits + 4 <= target_bits and len(vals) < 700:
+                v = rng.choice([1, -1, 2, -3, 7])
+                b = 2 * ((abs(v) + 1).bit_length() - 1) + 2
+                if bits + b > target_bits:
+                    v, b = 1, 4
+                    if bits + b > target_bits:
+                        break
+                vals.append(v)
+                bits += b
+            from vc2_conformance.encoder.pictures import ComponentCoeffs
+
+            return ComponentCoeffs(vals, [0] * len(vals))
+
+        h = rng.randrange(3)
+        return [[SliceCoeffs(long_comp(h == 0), long_comp(h == 1), long_comp(h == 2)) for _ in range(cols)] for _ in range(rows)]
 
     def comp():
         c = _gen_component(rng)
